@@ -149,6 +149,34 @@ def reference(nv, pts, E, F, C, cE, cF, pad2d=False):
             "decl_keys": decl_keys, "cells": cells, "cE": cE, "cF": cF, "nv": nv}
 
 
+def all_cell_faces(C):
+    """the distinct faces of the cells, in cell order, as the oracle lists them"""
+    out, seen = [], set()
+    for c in C:
+        for q in (cell_faces_of(c) or []):
+            if frozenset(q) not in seen:
+                seen.add(frozenset(q))
+                out.append(list(q))
+    return out
+
+
+def subset_faces(C, mask):
+    """the face list made of the faces of the cells whose bit is set in `mask`; subsets with an even number of faces
+    are listed in the reverse order with every face traversed the other way round"""
+    allf = all_cell_faces(C)
+    F = [allf[i] for i in range(len(allf)) if (mask >> i) & 1]
+    if F and len(F) % 2 == 0:
+        F = [f[::-1] for f in F[::-1]]
+    return F
+
+
+def listed_incidences(F, C):
+    """-> (number of cell-face incidences whose face is in the list F, number of cell-face incidences)"""
+    have = set(frozenset(f) for f in F)
+    qs = [q for c in C for q in (cell_faces_of(c) or [])]
+    return sum(1 for q in qs if frozenset(q) in have), len(qs)
+
+
 def expected_class(ref, n_faces_total):
     if ref["cells"]:
         return "VolumeMesh"
@@ -408,18 +436,22 @@ def compare(o, ref, inp):
                     value=stale[0][1], values=vals, edges=E)
     # ---- hard edges
     h = o["attrs"].get("edges.hard_edges")
+    # histories (mc/c02_hist.py): the edges the *caller* declared are not the whole edge list of the previous stage
+    hard_may = [tuple(k) for k in inp["hard_may"]] if inp.get("hard_may") is not None else decl
+    hard_must = [tuple(k) for k in inp["hard_must"]] if inp.get("hard_must") is not None else decl
+    icH = inp.get("hard_class", "first_build")
     if inp.get("skip_hard"):
         pass                                    # the file carries its own hard_edges attribute next to all edges
     elif h is not None and o["E"] is not None:
         flagged = [i for i, v in enumerate(h["vals"]) if v is True or v == 1]
-        notdecl = [i for i in flagged if keys[i] not in decl] if len(h["vals"]) == len(keys) else flagged
+        notdecl = [i for i in flagged if keys[i] not in hard_may] if len(h["vals"]) == len(keys) else flagged
         if notdecl:
-            dev("C02.hard_edges.only_declared", "mismatch:completed_edge_flagged", "first_build", index=notdecl[0],
+            dev("C02.hard_edges.only_declared", "mismatch:completed_edge_flagged", icH, index=notdecl[0],
                 edge=E[notdecl[0]] if notdecl[0] < len(E) else None, flags=h["vals"], edges=E)
-        unfl = [k for k in decl if k in index_of and index_of[k] not in flagged]
+        unfl = [k for k in hard_must if k in index_of and index_of[k] not in flagged]
         if unfl and want_sides:
             dev("C02.hard_edges.declared_flagged", "mismatch:declared_edge_not_flagged", icE, edge=list(unfl[0]), flags=h["vals"], edges=E)
-    elif o["E"] is not None and decl and want_sides - set(decl):
+    elif o["E"] is not None and hard_must and want_sides - set(hard_must) and want_sides - set(decl):
         dev("C02.hard_edges.declared_flagged", "mismatch:no_hard_edges_attribute", icE, edges=E)
     # ---- corner records
     if o["fc"] is not None:
@@ -454,6 +486,26 @@ def compare(o, ref, inp):
             ids = [fid.get(frozenset(q)) for q in qs]
             blocks.append(ids)
             owners += [ic] * len(ids)
+        if ok and not all(x is not None for b in blocks for x in b):
+            # the face list lacks faces of the cells (completion off, or a completion that failed and is reported by the
+            # faces clause).  "one record per cell-face incidence ... with both its element and its owner": accepted are
+            # (a) no record at all, (b) exactly one record per incidence whose face is in the list, cell by cell with the
+            # owner; anything in between (records of some cells only, owners without faces) is neither
+            got_e, got_a = o["cf"]
+            pres = [[x for x in b if x is not None] for b in blocks]
+            want_a = [ic for ic, b in enumerate(pres) for _ in b]
+            none_at_all = (not got_e) and (not got_a)
+            per_incidence = (got_a == want_a and len(got_e) == len(want_a))
+            if per_incidence:
+                pos = 0
+                for b in pres:
+                    if sorted(got_e[pos:pos + len(b)], key=repr) != sorted(b, key=repr):
+                        per_incidence = False
+                    pos += len(b)
+            if not (none_at_all or per_incidence):
+                dev("C02.cell_faces", "mismatch:records_of_some_incidences_only", "face_list_incomplete:completion_" + ("on" if ref["cF"] else "off"),
+                    got_faces=got_e, got_cells=got_a, want="none, or one per incidence with a listed face",
+                    listed_incidences=[[x, ic] for ic, b in enumerate(pres) for x in b])
         if ok and all(x is not None for b in blocks for x in b):
             got = o["cf"][0]
             pos, good_el = 0, len(got) == sum(len(b) for b in blocks)
